@@ -180,9 +180,17 @@ qlisttbl_t *qconfig_parse_file(qlisttbl_t *tbl, const char *filepath,
             }
 
             // replace
-            strncpy(buf, strp, CONST_STRLEN(_INCLUDE_DIRECTIVE) + len);
-            buf[CONST_STRLEN(_INCLUDE_DIRECTIVE) + len] = '\0';
-            strp = qstrreplace("sn", str, buf, incdata);
+            // (the directive line can be longer than buf by the length of
+            // the directive itself)
+            char *directive = strndup(strp,
+                                      CONST_STRLEN(_INCLUDE_DIRECTIVE) + len);
+            if (directive == NULL) {
+                free(incdata);
+                free(str);
+                return NULL;
+            }
+            strp = qstrreplace("sn", str, directive, incdata);
+            free(directive);
             free(incdata);
             free(str);
             str = strp;
